@@ -128,6 +128,15 @@ CHECKS = {
         ref="3/C14",
         technique="deterministic simulation: discrete-event key-distribution world with directory faults and a choice seam, reference resolution model, bounded liveness after heal",
     ),
+    "C15": dict(
+        level="fault_enumeration",
+        text=("complete enumeration (both tiers) of the cell space parameter x JSON value kind x header position x operation x "
+              "strict on/off x caller registry for JWS (incl. RFC 7797) and JWE (five algorithm families); the consuming half "
+              "uses tokens minted by a non-conformant but authenticated peer (valid signature / tag, bad header) so header "
+              "checks are isolated from cryptographic failures; oracle = header validity model transcribed from the statement."),
+        ref="3/C15",
+        technique="deterministic simulation: non-conformant authenticated peer as fault source, complete fault-cell enumeration, header-validity reference model",
+    ),
     "C16": dict(
         level="exploration",
         text=("hostile wire + Byzantine authenticated peer: worlds of well-formed keys (key / key set / callable) and registries "
